@@ -241,7 +241,38 @@ package jsonpath
 // the concatenation of the inner lists the multi-name step followed by the rest of the path; established by setNodeChain)
 //@ spec RLmultiDef(n *syntaxChildMultiIdentifier) bool = RLok(n) ==> (forall k {elemAt(n.identifiers, k)} :: off(n.identifiers) <= k && k < off(n.identifiers) + len(n.identifiers) ==> RLok(elemAt(n.identifiers, k)) && basicOf(elemAt(n.identifiers, k)).next == n.syntaxBasicNode.next) && (n.isAllWildcard ==> RLok(n.unionQualifier) && n.unionQualifier.syntaxBasicNode.next == n.syntaxBasicNode.next) && (forall r Val, c Val {RLn(n, r, c)} :: RLn(n, r, c) == (isType(c, map[string]interface{}) ? sumXof(r, c, n.identifiers, len(n.identifiers)) : ((n.isAllWildcard && isType(c, []interface{})) ? RLn(n.unionQualifier, r, c) : 0))) && (forall r Val, c Val, x {RLv(n, r, c, x)} :: 0 <= x && x < RLn(n, r, c) ==> RLv(n, r, c, x) == (isType(c, map[string]interface{}) ? RLv(A_Val[arr(n.identifiers)][idxOf(off(n.identifiers), segXof(r, c, n.identifiers, x))], r, c, x - sumXof(r, c, n.identifiers, segXof(r, c, n.identifiers, x))) : RLv(n.unionQualifier, r, c, x)))
 //@ spec WFmultiDef(n *syntaxChildMultiIdentifier) bool = RLmultiDef(n) && n != nil && height(n) == hgt(n.syntaxBasicNode) && WFbasic(n.syntaxBasicNode) && errRT(n.syntaxBasicNode) && wf(n.identifiers) && (arr(n.identifiers) == 0 || RO(n.identifiers)) && (forall k {elemAt(n.identifiers, k)} :: off(n.identifiers) <= k && k < off(n.identifiers) + len(n.identifiers) ==> elemAt(n.identifiers, k) != nil && WFnode(elemAt(n.identifiers, k)) && height(elemAt(n.identifiers, k)) < height(n) && (isType(elemAt(n.identifiers, k), *syntaxChildSingleIdentifier) ==> asType(elemAt(n.identifiers, k), *syntaxChildSingleIdentifier) != nil && RLsingleDef(asType(elemAt(n.identifiers, k), *syntaxChildSingleIdentifier)))) && (n.isAllWildcard ==> WFunionAt(n.unionQualifier) && WFnode(n.unionQualifier) && height(n.unionQualifier) < height(n)) && !chainSingle(n)
-//@ spec WFrecursiveDef(n *syntaxRecursiveChildIdentifier) bool = !RLok(n) && n != nil && height(n) == hgt(n.syntaxBasicNode) && WFbasic(n.syntaxBasicNode) && errRT(n.syntaxBasicNode) && n.syntaxBasicNode.next != nil && !chainSingle(n)
+// Recursive descent: every container of the subtree of the current value, pre-order (object members in ascending key
+// order, array elements in index order), gets the following step applied (objects only if that step can apply to an object,
+// arrays likewise).  DN(n, r, v): how many results the subtree of v contributes; CSm / CSl(.., t): the part contributed by
+// the members t, t+1, ... of an object / array that are containers (suffix sums); RDv(n, r, v, x): the x-th result of the
+// subtree of v.  A container's own results come first, then its container members' lists; member t's list ends
+// CS(.., t+1) before the end, so it starts at DN(v) - CS(.., t).  SN: sums over the work stack (bottom up).
+//@ smt (declare-fun DN (Int Val Val) Int)
+//@ smt (declare-fun CSm (Int Val (Array Str Val) (Array Str Bool) Int Int) Int)
+//@ smt (declare-fun CSl (Int Val (Array Int Val) Int Int Int) Int)
+//@ smt (declare-fun SN (Int Val (Array Int Val) Int Int) Int)
+//@ smt (declare-fun RDv (Int Val Val Int) Val)
+//@ smt (define-fun contV ((v Val)) Bool (or ((_ is VMap) v) ((_ is VList) v)))
+//@ smt (assert (forall ((n Int) (r Val) (v Val)) (! (>= (DN n r v) 0) :pattern ((DN n r v)))))
+//@ smt (assert (forall ((n Int) (r Val) (A (Array Int Val)) (o Int)) (! (= (SN n r A o 0) 0) :pattern ((SN n r A o 0)))))
+// (sums of non-negative terms: non-negative, and a suffix sum never exceeds the whole - arithmetic facts stated as axioms)
+//@ smt (assert (forall ((n Int) (r Val) (A (Array Int Val)) (o Int) (m Int) (t Int)) (! (and (>= (CSl n r A o m t) 0) (=> (and (<= 0 t) (<= t m)) (<= (CSl n r A o m t) (CSl n r A o m 0)))) :pattern ((CSl n r A o m t)))))
+//@ smt (assert (forall ((n Int) (r Val) (MV (Array Str Val)) (MD (Array Str Bool)) (m Int) (t Int)) (! (and (>= (CSm n r MV MD m t) 0) (=> (and (<= 0 t) (<= t m)) (<= (CSm n r MV MD m t) (CSm n r MV MD m 0)))) :pattern ((CSm n r MV MD m t)))))
+//@ smt (assert (forall ((n Int) (r Val) (A (Array Int Val)) (o Int) (k Int)) (! (>= (SN n r A o k) 0) :pattern ((SN n r A o k)))))
+//@ smt (assert (forall ((n Int) (r Val) (A (Array Int Val)) (o Int) (k Int) (k1 Int)) (! (=> (and (<= 0 k) (= k1 (+ k 1))) (= (SN n r A o k1) (+ (SN n r A o k) (DN n r (select A (idx o k)))))) :pattern ((SN n r A o k1) (select A (idx o k))))))
+//@ smt (assert (forall ((n Int) (r Val) (A (Array Int Val)) (o Int)) (! (= (SN n r A o 1) (DN n r (select A (idx o 0)))) :pattern ((SN n r A o 1)))))
+//@ smt (assert (forall ((n Int) (r Val) (A (Array Int Val)) (B (Array Int Val)) (o Int) (o2 Int) (k Int) (k2 Int)) (! (=> (and (= k k2) (= o o2) (forall ((t Int)) (=> (and (<= 0 t) (< t k)) (= (select A (idx o t)) (select B (idx o t)))))) (= (SN n r A o k) (SN n r B o2 k2))) :pattern ((SN n r A o k) (SN n r B o2 k2)))))
+//@ smt (assert (forall ((n Int) (r Val) (A (Array Int Val)) (o Int) (m Int)) (! (= (CSl n r A o m m) 0) :pattern ((CSl n r A o m m)))))
+//@ smt (assert (forall ((n Int) (r Val) (A (Array Int Val)) (o Int) (m Int) (t Int)) (! (=> (and (<= 0 t) (< t m)) (= (CSl n r A o m t) (+ (CSl n r A o m (+ t 1)) (ite (contV (select A (idx o t))) (DN n r (select A (idx o t))) 0)))) :pattern ((CSl n r A o m t) (select A (idx o t))))))
+//@ smt (assert (forall ((n Int) (r Val) (MV (Array Str Val)) (MD (Array Str Bool)) (m Int)) (! (= (CSm n r MV MD m m) 0) :pattern ((CSm n r MV MD m m)))))
+//@ smt (assert (forall ((n Int) (r Val) (MV (Array Str Val)) (MD (Array Str Bool)) (m Int) (t Int)) (! (=> (and (<= 0 t) (< t m)) (= (CSm n r MV MD m t) (+ (CSm n r MV MD m (+ t 1)) (ite (contV (select MV (skey MD t))) (DN n r (select MV (skey MD t))) 0)))) :pattern ((CSm n r MV MD m t) (skey MD t)))))
+//@ spec csM(n *syntaxRecursiveChildIdentifier, r any, m map[string]interface{}, t int) int = CSm(n, r, M_val[m], M_dom[m], len(m), t)
+//@ spec csL(n *syntaxRecursiveChildIdentifier, r any, s []interface{}, t int) int = CSl(n, r, A_Val[arr(s)], off(s), len(s), t)
+//@ spec snAt(n *syntaxRecursiveChildIdentifier, r any, st []interface{}, k int) int = SN(n, r, A_Val[arr(st)], off(st), k)
+//@ spec isCont(v any) bool = isType(v, map[string]interface{}) || isType(v, []interface{})
+//@ spec ownN(n *syntaxRecursiveChildIdentifier, r any, v any) int = isType(v, map[string]interface{}) ? (n.nextMapRequired ? RLn(n.syntaxBasicNode.next, r, v) : 0) : ((isType(v, []interface{}) && n.nextListRequired) ? RLn(n.syntaxBasicNode.next, r, v) : 0)
+//@ spec RLrecursiveDef(n *syntaxRecursiveChildIdentifier) bool = RLok(n) ==> RLok(n.syntaxBasicNode.next) && (forall r Val, v Val {DN(n, r, v)} :: DN(n, r, v) == ownN(n, r, v) + (isType(v, map[string]interface{}) ? csM(n, r, mapOf(v), 0) : (isType(v, []interface{}) ? csL(n, r, listOf(v), 0) : 0))) && (forall r Val, v Val, x {RDv(n, r, v, x)} :: 0 <= x && x < ownN(n, r, v) ==> RDv(n, r, v, x) == RLv(n.syntaxBasicNode.next, r, v, x)) && (forall r Val, v Val, t, k {RDv(n, r, memberM(mapOf(v), t), k)} :: isType(v, map[string]interface{}) && 0 <= t && t < len(mapOf(v)) && isCont(memberM(mapOf(v), t)) && 0 <= k && k < DN(n, r, memberM(mapOf(v), t)) ==> RDv(n, r, v, DN(n, r, v) - csM(n, r, mapOf(v), t) + k) == RDv(n, r, memberM(mapOf(v), t), k)) && (forall r Val, v Val, t, k {RDv(n, r, A_Val[arr(listOf(v))][idxOf(off(listOf(v)), t)], k)} :: isType(v, []interface{}) && 0 <= t && t < len(listOf(v)) && isCont(A_Val[arr(listOf(v))][idxOf(off(listOf(v)), t)]) && 0 <= k && k < DN(n, r, A_Val[arr(listOf(v))][idxOf(off(listOf(v)), t)]) ==> RDv(n, r, v, DN(n, r, v) - csL(n, r, listOf(v), t) + k) == RDv(n, r, A_Val[arr(listOf(v))][idxOf(off(listOf(v)), t)], k)) && (forall r Val, c Val {RLn(n, r, c)} :: RLn(n, r, c) == DN(n, r, c)) && (forall r Val, c Val, x {RLv(n, r, c, x)} :: RLv(n, r, c, x) == RDv(n, r, c, x))
+//@ spec WFrecursiveDef(n *syntaxRecursiveChildIdentifier) bool = RLrecursiveDef(n) && n != nil && height(n) == hgt(n.syntaxBasicNode) && WFbasic(n.syntaxBasicNode) && errRT(n.syntaxBasicNode) && n.syntaxBasicNode.next != nil && !chainSingle(n)
 // A filter over an array applies the continuation to the elements for which the filter holds (RH), in index order.
 // sumF: prefix sums of the guarded steps; segF: the segment of a position; an all-false filter selects nothing (sum of zeros:
 // arithmetic fact stated as an axiom, like the segment property).
@@ -642,10 +673,26 @@ package jsonpath
 //@   loop 2 invariant bufInv(container) && errInv(deepestTextLen, deepestError) && wf(rangeslice2) && mine(rangeslice2) && arr(rangeslice2) != arr(container.result) && (forall k {elemAt(rangeslice2, k)} :: off(rangeslice2) <= k && k < off(rangeslice2) + len(rangeslice2) ==> 0 <= elemAt(rangeslice2, k) && elemAt(rangeslice2, k) < len(srcArray))
 
 //@ func (*syntaxRecursiveChildIdentifier).retrieve
-//@   props C03 C04 C05 C06 C07 C20 C15 C12 C13
+//@   props C01 C08 C03 C04 C05 C06 C07 C20 C15 C12 C13
 //@   implements syntaxNode.retrieve
 //@   unfold WFnode(this) ==> WFrecursiveDef(i)
 //@   ensures mismatch: !isType(current, map[string]interface{}) && !isType(current, []interface{}) ==> mismatch(ret, i.errorRuntime, "object/array", current) && len(container.result) == old(len(container.result))
+//@   loop 1 invariant rtop: off(targetNodes) == 0 && (len(targetNodes) > 0 ==> extVal(targetNodes[len(targetNodes) - 1]))
+//@   loop 1 invariant rtopseg: RLok(this) && len(targetNodes) > 0 ==> (forall x {RDv(i, root, current, x)} :: (len(container.result) - old(len(container.result))) <= x && x < (len(container.result) - old(len(container.result))) + DN(i, root, targetNodes[len(targetNodes) - 1]) ==> RDv(i, root, current, x) == RDv(i, root, targetNodes[len(targetNodes) - 1], x - (len(container.result) - old(len(container.result)))))
+//@   loop 1 invariant rcnt: RLok(this) ==> (len(container.result) - old(len(container.result))) + snAt(i, root, targetNodes, len(targetNodes)) == DN(i, root, current)
+//@   loop 1 invariant rvals: RLok(this) ==> (forall x {RDv(i, root, current, x)} :: 0 <= x && x < (len(container.result) - old(len(container.result))) ==> resAt(container, x) == RDv(i, root, current, x))
+//@   loop 1 invariant rsegs: RLok(this) ==> (forall s, k {RDv(i, root, A_Val[arr(targetNodes)][idxOf(off(targetNodes), s)], k)} :: 0 <= s && s < len(targetNodes) && 0 <= k && k < DN(i, root, A_Val[arr(targetNodes)][idxOf(off(targetNodes), s)]) ==> RDv(i, root, current, DN(i, root, current) - snAt(i, root, targetNodes, s + 1) + k) == RDv(i, root, A_Val[arr(targetNodes)][idxOf(off(targetNodes), s)], k))
+//@   loop 2 invariant rtop: off(targetNodes) == 0 && (len(targetNodes) > 0 ==> extVal(targetNodes[len(targetNodes) - 1]))
+//@   loop 2 invariant rcnt: RLok(this) ==> (len(container.result) - old(len(container.result))) + snAt(i, root, targetNodes, len(targetNodes)) + csM(i, root, typedNodes, 0) - csM(i, root, typedNodes, index + 1) == DN(i, root, current)
+//@   loop 2 invariant rvals: RLok(this) ==> (forall x {RDv(i, root, current, x)} :: 0 <= x && x < (len(container.result) - old(len(container.result))) ==> resAt(container, x) == RDv(i, root, current, x))
+//@   loop 2 invariant rsegs: RLok(this) ==> (forall s, k {RDv(i, root, A_Val[arr(targetNodes)][idxOf(off(targetNodes), s)], k)} :: 0 <= s && s < len(targetNodes) && 0 <= k && k < DN(i, root, A_Val[arr(targetNodes)][idxOf(off(targetNodes), s)]) ==> RDv(i, root, current, DN(i, root, current) - snAt(i, root, targetNodes, s + 1) + k) == RDv(i, root, A_Val[arr(targetNodes)][idxOf(off(targetNodes), s)], k))
+//@   loop 2 invariant rvseg: RLok(this) ==> (forall j {RDv(i, root, typedNodes, j)} :: 0 <= j && j < DN(i, root, typedNodes) ==> RDv(i, root, current, DN(i, root, current) - (snAt(i, root, targetNodes, len(targetNodes)) - csM(i, root, typedNodes, index + 1) + DN(i, root, typedNodes)) + j) == RDv(i, root, typedNodes, j))
+//@   loop 3 invariant rtop: off(targetNodes) == 0 && (len(targetNodes) > 0 ==> extVal(targetNodes[len(targetNodes) - 1]))
+//@   loop 3 invariant rcnt: RLok(this) ==> (len(container.result) - old(len(container.result))) + snAt(i, root, targetNodes, len(targetNodes)) + csL(i, root, typedNodes, 0) - csL(i, root, typedNodes, index + 1) == DN(i, root, current)
+//@   loop 3 invariant rvals: RLok(this) ==> (forall x {RDv(i, root, current, x)} :: 0 <= x && x < (len(container.result) - old(len(container.result))) ==> resAt(container, x) == RDv(i, root, current, x))
+//@   loop 3 invariant rsegs: RLok(this) ==> (forall s, k {RDv(i, root, A_Val[arr(targetNodes)][idxOf(off(targetNodes), s)], k)} :: 0 <= s && s < len(targetNodes) && 0 <= k && k < DN(i, root, A_Val[arr(targetNodes)][idxOf(off(targetNodes), s)]) ==> RDv(i, root, current, DN(i, root, current) - snAt(i, root, targetNodes, s + 1) + k) == RDv(i, root, A_Val[arr(targetNodes)][idxOf(off(targetNodes), s)], k))
+//@   loop 3 invariant rvseg: RLok(this) ==> (forall j {RDv(i, root, typedNodes, j)} :: 0 <= j && j < DN(i, root, typedNodes) ==> RDv(i, root, current, DN(i, root, current) - (snAt(i, root, targetNodes, len(targetNodes)) - csL(i, root, typedNodes, index + 1) + DN(i, root, typedNodes)) + j) == RDv(i, root, typedNodes, j))
+//@   loop 2 invariant rkeys: keysEnum(poolSlice(sortKeys), typedNodes)
 //@   loop 1 invariant buf: bufInv(container)
 //@   loop 1 invariant errs: errInv(deepestTextLen, deepestError)
 //@   loop 1 invariant stackwf: wf(targetNodes)
